@@ -1068,3 +1068,120 @@ func ruleAdjacencyIsDecidedOnTheText(c *Ctx, rule string) {
 		})
 	}
 }
+
+// ruleCallersSlicesAreNotRetained — C07.R12 (census, also C13.R14, C12.R15, C11.R15): an exported constructor or
+// method that receives a slice (a variadic list spread with `xs...` is the caller's slice) and builds a long-lived
+// object from it — a matcher closure, a CORS configuration — does not keep that slice: a caller that reuses or edits
+// its slice afterwards would change what a finished object does, and two objects built from one slice would be
+// coupled. Kept means: stored into a struct field, or captured by a function literal, as it is (not cloned, not
+// copied element by element) — directly or through one module helper the slice is handed to.
+func ruleCallersSlicesAreNotRetained(c *Ctx, rule string, only string) {
+	c.R.Rule(c.R.Property+"."+rule, 0, "objects built from a caller's slice keep a copy, not the slice")
+	var keeps func(f *ssa.Function, p *ssa.Parameter, depth int) string
+	keeps = func(f *ssa.Function, p *ssa.Parameter, depth int) string {
+		where := ""
+		an.AllInstrs(f, func(in ssa.Instruction) {
+			switch x := in.(type) {
+			case *ssa.Store:
+				if _, isFA := x.Addr.(*ssa.FieldAddr); isFA && x.Val == ssa.Value(p) {
+					where = "stored in a field at " + c.pos(in)
+				}
+				// a captured parameter lives in a cell: the cell is what the function literal binds
+				if cell, isCell := x.Addr.(*ssa.Alloc); isCell && x.Val == ssa.Value(p) {
+					for _, ref := range *cell.Referrers() {
+						mc, isMC := ref.(*ssa.MakeClosure)
+						if !isMC {
+							continue
+						}
+						// unless the cell is overwritten (m = slices.Clone(m)) on every path to the literal
+						reaches := (&an.Query{
+							Target: func(t ssa.Instruction) bool { return t == ssa.Instruction(mc) },
+							Block: func(t ssa.Instruction) bool {
+								s2, isSt := t.(*ssa.Store)
+								return isSt && s2.Addr == ssa.Value(cell) && s2.Val != ssa.Value(p)
+							},
+						}).Search(an.After(in))
+						if reaches != nil {
+							where = "captured by the function literal at " + c.pos(mc)
+						}
+					}
+				}
+				if ia, isIA := x.Addr.(*ssa.IndexAddr); isIA && ia.X == ssa.Value(p) {
+					where = "written into at " + c.pos(in)
+				}
+			case *ssa.MakeClosure:
+				for _, b := range x.Bindings {
+					if b == ssa.Value(p) {
+						where = "captured by the function literal at " + c.pos(in)
+					}
+				}
+			case *ssa.Call:
+				if depth >= 1 {
+					return
+				}
+				g := an.StaticCallee(&x.Call)
+				if g == nil || !an.InModule(g) || len(g.Blocks) == 0 {
+					return
+				}
+				for i, a := range an.CallArgs(&x.Call) {
+					if a == ssa.Value(p) && i < len(g.Params) {
+						if w := keeps(g, g.Params[i], depth+1); w != "" {
+							where = w + " (through " + an.FuncKey(g) + ")"
+						}
+					}
+				}
+			}
+		})
+		return where
+	}
+	for _, f := range c.libFuncs() {
+		k := an.FuncKey(f)
+		if !strings.HasPrefix(k, "mux.") || f.Parent() != nil || f.Object() == nil || !f.Object().Exported() {
+			continue
+		}
+		if only != "" && !strings.Contains(k, only) {
+			continue
+		}
+		for _, p := range f.Params {
+			sl, ok := p.Type().Underlying().(*types.Slice)
+			if !ok {
+				continue
+			}
+			if _, isSig := sl.Elem().Underlying().(*types.Signature); isSig {
+				continue // option / middleware functions: consumed, and immutable values anyway
+			}
+			if n, isNamed := types.Unalias(sl.Elem()).(*types.Named); isNamed && (n.Obj().Name() == "Option" || strings.HasPrefix(n.Obj().Name(), "Middleware")) {
+				continue
+			}
+			w := keeps(f, p, 0)
+			c.R.Add(rule, k, "param:"+p.Name()+"/not-retained", c.P.Pos(f.Pos()), w == "", ifelse(w == "", "the slice is copied or only read during the call", "the caller's slice "+p.Name()+" is "+w+": the object built here keeps using the caller's memory — editing or reusing the slice afterwards changes what the finished object accepts, and objects built from one slice are coupled"))
+		}
+	}
+}
+
+// ruleRegexpSplitOnRuneBoundary — C17.R11 / C05.R16 / C02.R17: the literal suffix of a regexp segment is compiled into
+// its expression, and an expression has to be valid UTF-8. The common prefix of two patterns is computed byte by
+// byte, so two routes whose text differs inside a multi-byte character (ärzte / übersicht) have a common prefix that
+// ends in the middle of that character; splitting a regexp segment there makes the second Handle fail with "invalid
+// UTF-8" after the existing node was already taken out of the tree. The code that decides where segments are split
+// (Segment.Similarity and what it calls) therefore looks at character boundaries: it consults unicode/utf8.
+func ruleRegexpSplitOnRuneBoundary(c *Ctx, rule string) {
+	c.R.Rule(c.R.Property+"."+rule, 1, "the split point of a regexp segment is moved to a character boundary")
+	sim := c.P.Func("syntax.(*Segment).Similarity")
+	if sim == nil {
+		c.R.Add(rule, "pkg:syntax", "split-point/function", "-", true, "no Similarity function (the split point is computed elsewhere)")
+		return
+	}
+	uses := false
+	for _, g := range builderCluster(c, sim) {
+		if !strings.HasPrefix(an.FuncKey(g), "syntax.") {
+			continue
+		}
+		an.AllInstrs(g, func(in ssa.Instruction) {
+			if call := an.CallOf(in); call != nil && strings.HasPrefix(an.CalleeName(call), "unicode/utf8.") {
+				uses = true
+			}
+		})
+	}
+	c.R.Add(rule, c.fk(sim), "split-point/character-boundary-for-regexp-segments", c.P.Pos(sim.Pos()), uses, ifelse(uses, "the split position is checked against character boundaries (unicode/utf8)", "the split position is the byte-wise common prefix and nothing looks at character boundaries: two regexp routes whose literal text differs inside a multi-byte character are split in the middle of it, the suffix no longer compiles (\"invalid UTF-8\"), the registration fails and the route registered first is lost"))
+}
